@@ -121,7 +121,17 @@ type cliUniverse struct {
 var pktSource = netip.MustParseAddrPort("192.0.2.7:4433")
 
 func newCliUniverse(c pcfg, salt uint64) (*cliUniverse, error) {
-	e, err := newEndpoint(c, salt)
+	p, err := newPeer(c, salt)
+	if err != nil {
+		return nil, err
+	}
+	return p.openUniverse()
+}
+
+// openUniverse opens a new client session on the peer's long-lived client object, lets the peer's
+// long-lived server object see its first packet and creates three server sessions for it.
+func (p *peer) openUniverse() (*cliUniverse, error) {
+	e, err := p.open()
 	if err != nil {
 		return nil, err
 	}
@@ -221,19 +231,48 @@ func TestPacketClient(t *testing.T) {
 
 func runClientPlan(c pcfg, plan []step) (res pktResult) {
 	defer guard(&res)
-	res.labels = map[string]bool{}
-	fail := func(format string, a ...any) pktResult {
-		res.violation = "SIG=C04/harness " + fmt.Sprintf(format, a...)
+	pa, err := newPeer(c, 1)
+	if err != nil {
+		res.violation = "SIG=C04/harness setup A: " + err.Error()
 		return res
 	}
-	ua, err := newCliUniverse(c, 1)
+	pb, err := newPeer(c, 2)
+	if err != nil {
+		res.violation = "SIG=C04/harness setup B: " + err.Error()
+		return res
+	}
+	res, _ = runClientSession(c, plan, [2]*peer{pa, pb}, nil)
+	return res
+}
+
+// sessionTrace is what a later session of the same client object needs to know about this one.
+type sessionTrace struct {
+	established bool
+	firstAdopt  time.Time // when this client session adopted its first server session
+	lastAdopt   time.Time // when it last adopted a server session
+	carry       [2][]*pkt // a few authentic packets of this session, per universe
+	close       [2]func() error
+}
+
+// runClientSession opens one new client session on each peer's long-lived client object and runs
+// the plan against it with a FRESH reference model: a new client session owes nothing to earlier
+// sessions of the same object. carry holds authentic packets addressed to an earlier client
+// session; for this session they carry another client's session id and must be dropped.
+func runClientSession(c pcfg, plan []step, peers [2]*peer, carry *[2][]*pkt) (res pktResult, tr sessionTrace) {
+	res.labels = map[string]bool{}
+	fail := func(format string, a ...any) (pktResult, sessionTrace) {
+		res.violation = "SIG=C04/harness " + fmt.Sprintf(format, a...)
+		return res, tr
+	}
+	ua, err := peers[0].openUniverse()
 	if err != nil {
 		return fail("setup A: %v", err)
 	}
-	ub, err := newCliUniverse(c, 2)
+	ub, err := peers[1].openUniverse()
 	if err != nil {
 		return fail("setup B: %v", err)
 	}
+	tr.close = [2]func() error{ua.e.session.Close, ub.e.session.Close}
 	unis := [2]*cliUniverse{ua, ub}
 	var tag uint64
 	// one packet of every genuine session tells the harness the session ids (taken from the wire
@@ -255,6 +294,19 @@ func runClientPlan(c pcfg, plan []step) (res pktResult) {
 	curS := 0
 	var dup, ooo, cross, badSeen bool
 	started := time.Now()
+	if carry != nil {
+		// authentic server packets addressed to an earlier session of the same client object: for this
+		// session they name another client's session id (universe B never sees them)
+		for _, p := range carry[0] {
+			if okA, _, _, errA := ua.present(p.wire); okA {
+				res.violation = fmt.Sprintf("SIG=C04/pkt-client-earlier-session-accepted a packet addressed to the previous client session (ssid=%#x pid=%d) was delivered to the new session (%s)", p.sid, p.pid, errString(errA))
+				return res, tr
+			}
+			res.labels["earlier-session-packet-dropped"] = true
+			res.verdicts = append(res.verdicts, 'x')
+			badSeen = true
+		}
+	}
 
 	present := func(i, idx int) string {
 		pa, pb := ua.pool[idx], ub.pool[idx]
@@ -374,7 +426,7 @@ func runClientPlan(c pcfg, plan []step) (res pktResult) {
 			span := min(spans[s.Span], len(ua.pool))
 			if v := present(i, len(ua.pool)-1-int(s.Pick%uint64(span))); v != "" {
 				res.violation = v
-				return res
+				return res, tr
 			}
 		case opForge:
 			tag++
@@ -399,7 +451,7 @@ func runClientPlan(c pcfg, plan []step) (res pktResult) {
 			}
 			if v := present(i, len(ua.pool)-1); v != "" {
 				res.violation = v
-				return res
+				return res, tr
 			}
 		case opAdvance:
 			time.Sleep(s.D)
@@ -420,7 +472,18 @@ func runClientPlan(c pcfg, plan []step) (res pktResult) {
 		}
 	}
 	res.nt = dup && ooo && cross
-	return res
+	tr.established = model.cur != nil
+	tr.firstAdopt, tr.lastAdopt = model.tEst, model.tEst
+	if model.tChange.After(tr.lastAdopt) {
+		tr.lastAdopt = model.tChange
+	}
+	for k := len(ua.pool) - 1; k >= 0 && len(tr.carry[0]) < 3; k-- {
+		if ua.pool[k].kind == -1 {
+			tr.carry[0] = append(tr.carry[0], ua.pool[k])
+			tr.carry[1] = append(tr.carry[1], ub.pool[k])
+		}
+	}
+	return res, tr
 }
 
 func fmtSess(s *sessModel) string {
